@@ -250,7 +250,11 @@ def rule_records(P):
                                     continue
                                 r.brk("%s(tag %d, payload %d, %d bytes, split %s): %s" % (fname, tag, plen, k, split, why))
                                 return r
-                            rv = tevalx(normx(o.at.e[1]), o.env, P, f) if o.kind == "ret" else None
+                            try:
+                                rv = tevalx(normx(o.at.e[1]), o.env, P, f) if o.kind == "ret" else None
+                            except EvalError as ex:
+                                r.brk("%s(tag %d, payload %d, %d bytes, split %s): return value not evaluable: %s" % (fname, tag, plen, k, split, ex))
+                                return r
                             left = HB.content(o.env)
                             bad = list(HB.invariant(o.env)) + list(o.env.get("#viol", ()))
                             if fname == "evtag_unmarshal_header":
